@@ -128,7 +128,7 @@ def check(case, ignore_regions=False) -> Outcome:
     impossible = effectiveness_violation(conds)
     # region by input (the ID* findings apply to the joint event); the rejection clause is checked regardless
     region = None if ignore_regions else c07.in_region(joint_case(case))
-    if region and not (region in open_regions("C07") or os.environ.get("VF_C07_ALL_REGIONS")):
+    if region and not (region in (open_regions("C07") | open_regions(ID)) or os.environ.get("VF_C07_ALL_REGIONS")):
         region = None
     if region is None and not ignore_regions and REGION_F24 in open_regions(ID) and {it["v"] for it in outs} & {it["v"] for it in conds}:
         region = REGION_F24
